@@ -558,7 +558,15 @@ class HostConnection(object):
                 conn.close()
 
     def _set_keyspace_for_all_conns(self, keyspace, callback):
-        if self.is_shutdown or not self._connection:
+        if self.is_shutdown:
+            callback(self, [])
+            return
+
+        # a connection opened later (replacement) selects this keyspace itself
+        self._keyspace = keyspace
+        connection = self._connection
+        if not connection:
+            callback(self, [])
             return
 
         def connection_finished_setting_keyspace(conn, error):
@@ -566,8 +574,7 @@ class HostConnection(object):
             errors = [] if not error else [error]
             callback(self, errors)
 
-        self._keyspace = keyspace
-        self._connection.set_keyspace_async(keyspace, connection_finished_setting_keyspace)
+        connection.set_keyspace_async(keyspace, connection_finished_setting_keyspace)
 
     def get_connections(self):
         c = self._connection
